@@ -201,7 +201,11 @@ type lgConc struct {
 	arch    bool // every configuration carries "goarch: amd64"
 	split2  bool // SplitBy names goarch as well (needs arch)
 	nilTest bool // leave DeltaTest nil (documented default: U-test)
-	rng     *rand.Rand
+	// affine re-reading of the model's values (second passes of lgReplay): a model value v
+	// stands for (v - shift) * scale * sgn; shift 0 and sgn 1 in the first pass
+	shift int
+	sgn   float64
+	rng   *rand.Rand
 }
 
 func lgRandFor(id json.RawMessage) *rand.Rand {
@@ -212,7 +216,7 @@ func lgRandFor(id json.RawMessage) *rand.Rand {
 
 func lgConcretise(c *lgCase) *lgConc {
 	rng := lgRandFor(c.ID)
-	k := &lgConc{rng: rng}
+	k := &lgConc{rng: rng, sgn: 1}
 	k.names = lgNameSchemes[rng.Intn(len(lgNameSchemes))]
 	k.units[1], k.units[2] = "ns/op", "MB/s"
 	k.units[3] = lgCustomUnits[rng.Intn(len(lgCustomUnits))]
@@ -236,7 +240,12 @@ func lgConcretise(c *lgCase) *lgConc {
 	return k
 }
 
-func (k *lgConc) val(v int) float64 { return float64(v) * k.scale }
+func (k *lgConc) val(v int) float64 {
+	if k.shift == 0 && k.sgn == 1 {
+		return float64(v) * k.scale
+	}
+	return float64(v-k.shift) * k.scale * k.sgn
+}
 
 // group is the group text the library derives for label value g (0 = label not set)
 func (k *lgConc) group(g int) string {
@@ -451,6 +460,13 @@ func lgReplay(raw json.RawMessage) Verdict {
 	f, skipped := lgCompare(&c, k, col, tables)
 	if f == nil {
 		f = lgFormats(&c, k, tables)
+	}
+	if f == nil {
+		for _, p := range lgAffinePlans(&c) {
+			if f2, conc2 := lgAffine(&c, float64(p[0]), p[1]); f2 != nil {
+				return Verdict{Signature: f2.sig, Detail: f2.detail, Concrete: conc2}
+			}
+		}
 	}
 	if f != nil {
 		v := Verdict{Signature: f.sig, Detail: f.detail, Concrete: conc}
@@ -716,16 +732,105 @@ func lgCompareCell(k *lgConc, unit string, er *lgRow, ci int, m *benchstat.Metri
 		}
 		return lgF("retained-set", "%s: retained values %v, within 1.5 IQR of the quartiles are %v (of %v)", where, m.RValues, wantR, wantV)
 	}
-	if m.Min != k.val(ec.Min) || m.Max != k.val(ec.Max) {
-		return lgF("min-max", "%s: min/max %v/%v, of the retained values %v/%v", where, m.Min, m.Max, k.val(ec.Min), k.val(ec.Max))
+	wantMin, wantMax := k.val(ec.Min), k.val(ec.Max)
+	if k.sgn < 0 {
+		wantMin, wantMax = wantMax, wantMin
 	}
-	if !lgRatEq(m.Mean, ec.Sum, ec.N, k.scale, 1e-12) {
-		return lgF("mean", "%s: mean %v, of the retained values %d/%d*%v", where, m.Mean, ec.Sum, ec.N, k.scale)
+	if m.Min != wantMin || m.Max != wantMax {
+		return lgF("min-max", "%s: min/max %v/%v, of the retained values %v: %v/%v", where, m.Min, m.Max, wantR, wantMin, wantMax)
 	}
-	if !(m.Min <= m.Mean && m.Mean <= m.Max) {
+	if k.shift == 0 && k.sgn == 1 {
+		if !lgRatEq(m.Mean, ec.Sum, ec.N, k.scale, 1e-12) {
+			return lgF("mean", "%s: mean %v, of the retained values %d/%d*%v", where, m.Mean, ec.Sum, ec.N, k.scale)
+		}
+		if !(m.Min <= m.Mean && m.Mean <= m.Max) {
+			return lgF("min-mean-max", "%s: min %v mean %v max %v", where, m.Min, m.Mean, m.Max)
+		}
+		return nil
+	}
+	// affine pass: the mean of (v-shift)*scale*sgn is (sum - n*shift)/n*scale*sgn; the sum may cancel, so the
+	// tolerance is relative to the largest retained magnitude
+	mag := math.Max(math.Abs(wantMin), math.Abs(wantMax))
+	wantMean := float64(ec.Sum-ec.N*k.shift) / float64(ec.N) * k.scale * k.sgn
+	if math.IsNaN(m.Mean) || math.Abs(m.Mean-wantMean) > 1e-12*mag {
+		return lgF("mean", "%s: mean %v, of the retained values %v is %v", where, m.Mean, wantR, wantMean)
+	}
+	if !(m.Min <= m.Mean+1e-12*mag && m.Mean <= m.Max+1e-12*mag) {
 		return lgF("min-mean-max", "%s: min %v mean %v max %v", where, m.Min, m.Mean, m.Max)
 	}
 	return nil
+}
+
+// lgAffine: second pass over the same case with every model value v re-read as (v - shift)*scale*sgn
+// (negative, mixed-sign, reflected samples: signed custom metrics are legal benchmark output). The quartiles
+// (R8, symmetric) and the 1.5 IQR fences are equivariant under x -> a*x + b, a != 0, so the retained values are
+// the images of the model's retained values in input order, the mean is the image of the mean, and min and max
+// are the images of min and max (exchanged when a < 0). Only the per-cell statistics are judged in this pass:
+// deltas, directions, p-values and geomeans are not equivariant.
+func lgAffine(c *lgCase, sgn float64, shift int) (*lgFail, string) {
+	k := lgConcretise(c)
+	k.sgn, k.shift = sgn, shift
+	col, texts := lgBuild(c, k)
+	tables := col.Tables()
+	conc := fmt.Sprintf("affine pass value=(v-%d)*%v*%v configs=%q api=%v texts=%q", shift, k.scale, sgn, k.configs, k.useAPI, texts)
+	nc := len(c.Cfgs)
+	multiGroup := len(c.Exp.Groups) > 1
+	type rk struct{ g, b string }
+	for _, t := range tables {
+		u := lgTableUnit(t)
+		var et *lgTable
+		for j := range c.Exp.Tables {
+			if k.units[c.Exp.Tables[j].U] == u {
+				et = &c.Exp.Tables[j]
+			}
+		}
+		if et == nil {
+			continue
+		}
+		idx := map[rk]int{}
+		for i, r := range et.Rows {
+			g := ""
+			if multiGroup {
+				g = k.group(r.G)
+			}
+			idx[rk{g, k.names[r.B-1]}] = i
+		}
+		for _, r := range t.Rows {
+			i, ok := idx[rk{r.Group, r.Benchmark}]
+			if !ok || r.Benchmark == lgGeoName || len(r.Metrics) != nc {
+				continue
+			}
+			for ci := 0; ci < nc; ci++ {
+				if f := lgCompareCell(k, u, &et.Rows[i], ci, r.Metrics[ci]); f != nil {
+					f.sig = "signed-" + f.sig
+					return f, conc
+				}
+			}
+		}
+	}
+	return nil, conc
+}
+
+// lgAffinePlans: the re-readings tried for a case: all values negative (shift above the largest value),
+// the reflection (non-positive, order reversed), and one seeded mixed-sign reading.
+func lgAffinePlans(c *lgCase) [][2]int {
+	max := 0
+	for _, cfg := range c.Cfgs {
+		for _, l := range cfg {
+			for _, m := range l.Ms {
+				if m[1] > max {
+					max = m[1]
+				}
+			}
+		}
+	}
+	rng := lgRandFor(append(append(json.RawMessage{}, c.ID...), 'a'))
+	plans := [][2]int{{1, max + 1 + rng.Intn(3)}, {-1, rng.Intn(2) * (max + 1)}}
+	if max > 0 {
+		s := 1 - 2*rng.Intn(2)
+		plans = append(plans, [2]int{s, 1 + rng.Intn(max)})
+	}
+	return plans
 }
 
 // lgCompareCmp checks Delta, Change, Note of an old/new row. Returns whether the
